@@ -122,6 +122,9 @@ def role(args):
 
 
 def view_of(backend, wd, keys):
+    # (os.renames() prunes empty parent directories of its source: an operation that empties the archive's root can take
+    # the working directory with it - the viewer then opens the location like any later session would)
+    os.makedirs(wd, exist_ok=True)
     r = subprocess.run([common.PY, '-m', 'harness.fs_worker', common.REPO, backend, wd, 'view', json.dumps({'keys': keys})],
                        capture_output=True, text=True, env=worker_env(), cwd=wd, timeout=120)
     try:
